@@ -949,9 +949,21 @@ str_contains = Function('str_contains', Atom, Atom, BoolSort())      # `value in
 def s_str_contains(ev, a, v): return SV(BOOL, str_contains(a.z, v.z))
 
 
+vtag = Function('vtag', Atom, BoolSort())        # isinstance(symbol, Variable) for a grammar symbol (assumption A-tags: the class of a symbol object is a function of its string; Variable or Terminal)
+@spec('vtag')
+def s_vtag(ev, x): return SV(BOOL, vtag(x.z))
+
+
 cnf_b = Function('cnf', CFGs, BoolSort())          # the value CFG.is_chomsky() returns (assumed contract; the table specification below does not depend on it)
 @spec('cnf')
 def s_cnf(ev, G): return SV(BOOL, cnf_b(G.z))
+def _cnf_def():
+    t, k = Const('t_', Int), Const('k_', Int)
+    nR = _LR[2](rec_get(_Gsv, 'R').z); var, ln, arr = rule_at(_Gsv, t); Sv = rec_get(_Gsv, 'S').z
+    shape = Or(ln == 0, And(ln == 1, Not(vtag(Select(arr, 0)))), And(ln == 2, vtag(Select(arr, 0)), vtag(Select(arr, 1))))
+    no_start = ForAll([k], Not(And(0 <= k, k < ln, vtag(Select(arr, k)), Select(arr, k) == Sv)))
+    axiom('cfg', 'def', 'cnf-def', ForAll([_Gg], cnf_b(_Gg) == ForAll([t], Implies(And(0 <= t, t < nR), And(shape, no_start, Implies(ln == 0, var == Sv))))))
+_cnf_def()
 
 
 # ====================================================================== word-level readings of DFA constructions (C14)
